@@ -56,6 +56,10 @@ try:
 finally:
     sh("git -C /repo checkout -- . && git -C /repo clean -fdq")
 res["detected"] = res.get("check_rc") == 1
+if skip_tests:      # keep the suite result of the earlier full confirmation
+    for k in ("pinned_passed", "pinned_failed", "pinned_ok"):
+        if k in meta.get("what_was_run", {}):
+            res[k] = meta["what_was_run"][k]
 meta["what_was_run"] = res
 json.dump(meta, open(f"{dst}/meta.json", "w"), indent=1)
 print(json.dumps(res, indent=1))
